@@ -127,11 +127,10 @@ def get_type_graph(t: type) -> graphlib.TopologicalSorter[TypeNode]:
     while stack:
         parent = stack.popleft()
         parent_unwrapped = _unwrap(parent.type)
-        # Literals and callables have arguments, but those are not member types.
-        if (
-            inspection.isliteral(parent_unwrapped)
-            or inspection.origin(parent_unwrapped) is typing.Callable
-        ):
+        # Literals, callables and classes (`type[...]`) have arguments, but those are not member types.
+        if inspection.isliteral(parent_unwrapped) or inspection.origin(
+            parent_unwrapped
+        ) in (typing.Callable, type):
             graph.add(parent)
             continue
 
